@@ -150,13 +150,7 @@ class Degree:
                 else:
                     env[k] = a if a is not None else b
         elif isinstance(s, ast.For):
-            it = self.ev(s.iter, env, fi)
-            el = it[1] if it is not None and it[0] == "c" else None
-            if el is None:
-                tags = self.eng.types_at(fi, s.iter)
-                ks = self.kind_of_type(tags)
-                cs = [k[1] for k in ks if k[0] == "c"]
-                el = cs[0] if cs else (("s", 0) if isinstance(s.iter, ast.Call) and txt(s.iter.func) == "range" else None)
+            el = self.iter_elem(s.iter, env, fi)
             if isinstance(s.target, ast.Name):
                 env[s.target.id] = el
             for _ in range(2):
@@ -222,9 +216,34 @@ class Degree:
             return ("c", ks[0]) if ks else None
         if isinstance(e, ast.IfExp):
             return self.ev(e.body, env, fi)
+        if isinstance(e, (ast.GeneratorExp, ast.ListComp, ast.SetComp)):
+            # the comprehension form of `for x in it: acc.append(elt)`: a container of the element's kind
+            env2 = dict(env)
+            for g in e.generators:
+                el = self.iter_elem(g.iter, env2, fi)
+                if isinstance(g.target, ast.Name):
+                    env2[g.target.id] = el
+                elif isinstance(g.target, (ast.Tuple, ast.List)):
+                    for x in g.target.elts:
+                        if isinstance(x, ast.Name):
+                            env2[x.id] = None
+                for c in g.ifs:
+                    self.ev(c, env2, fi)
+            k = self.ev(e.elt, env2, fi)
+            return ("c", k) if k is not None else self.by_type(e, fi)
         if isinstance(e, ast.Call):
             return self.call(e, env, fi)
         return None
+
+    def iter_elem(self, it_expr, env, fi):
+        it = self.ev(it_expr, env, fi)
+        el = it[1] if it is not None and it[0] == "c" else None
+        if el is None:
+            tags = self.eng.types_at(fi, it_expr)
+            ks = self.kind_of_type(tags)
+            cs = [k[1] for k in ks if k[0] == "c"]
+            el = cs[0] if cs else (("s", 0) if isinstance(it_expr, ast.Call) and txt(it_expr.func) == "range" else None)
+        return el
 
     def by_type(self, e, fi):
         ks = self.kind_of_type(self.eng.types_at(fi, e))
@@ -403,9 +422,18 @@ def r61(ctx, res):
     res.count("functions with a degree summary", len(dg.memo))
 
 
-def _acc_loop(fi: FunctionInfo, coll_attr: str, elem_call: str) -> Tuple[bool, str]:
-    """acc = 0; for x in self.<coll>: acc += x.<elem_call>(); return acc   (no condition, full collection)"""
+def _acc_loop(fi: FunctionInfo, coll_attr: str, elem_call: str, elem_ok=None) -> Tuple[bool, str]:
+    """acc = 0; for x in self.<coll>: acc += x.<elem_call>(); return acc   (no condition, full collection);
+    elem_ok(expr, var) replaces the test "expr is <var>.<elem_call>()" when given"""
     sn = fi.self_name or fi.params[0]
+    if elem_ok is not None:
+        def _is_elem(v, var):
+            return var is not None and elem_ok(v, var)
+    else:
+        def _is_elem(v, var):
+            return isinstance(v, ast.Call) and (
+                (isinstance(v.func, ast.Attribute) and v.func.attr == elem_call and txt(v.func.value) == var) or
+                (isinstance(v.func, ast.Name) and v.func.id == elem_call and len(v.args) == 1 and txt(v.args[0]) == var))
     loops = [x for x in walk_local(fi.node) if isinstance(x, ast.For)]
     for lp in loops:
         it = lp.iter
@@ -428,9 +456,7 @@ def _acc_loop(fi: FunctionInfo, coll_attr: str, elem_call: str) -> Tuple[bool, s
         if acc is None:
             return False, "loop body is not a single unconditional `acc += ...`"
         var = lp.target.id if isinstance(lp.target, ast.Name) else None
-        ok_call = isinstance(v, ast.Call) and (
-            (isinstance(v.func, ast.Attribute) and v.func.attr == elem_call and txt(v.func.value) == var) or
-            (isinstance(v.func, ast.Name) and v.func.id == elem_call and len(v.args) == 1 and txt(v.args[0]) == var))
+        ok_call = _is_elem(v, var)
         if not ok_call:
             return False, "accumulates `%s`, expected %s of each element" % (txt(v), elem_call)
         inits = [a for a in walk_local(fi.node) if isinstance(a, ast.Assign) and txt(a.targets[0]) == acc and a is not b0]
@@ -450,13 +476,66 @@ def _acc_loop(fi: FunctionInfo, coll_attr: str, elem_call: str) -> Tuple[bool, s
                     return False, "the comprehension filters the elements of %s" % coll_attr
                 var = ge.generators[0].target.id if isinstance(ge.generators[0].target, ast.Name) else None
                 v = ge.elt
-                ok_call = isinstance(v, ast.Call) and (
-                    (isinstance(v.func, ast.Attribute) and v.func.attr == elem_call and txt(v.func.value) == var) or
-                    (isinstance(v.func, ast.Name) and v.func.id == elem_call and len(v.args) == 1 and txt(v.args[0]) == var))
+                ok_call = _is_elem(v, var)
                 if not ok_call:
                     return False, "sums `%s`, expected %s of each element" % (txt(v), elem_call)
                 return True, "sum(<element>.%s() ...) over all of %s.%s" % (elem_call, sn, coll_attr)
     return False, "no loop over %s.%s" % (sn, coll_attr)
+
+
+def _is_height(atom: str, base: str, apex: str) -> bool:
+    """atom is the distance of `apex` from the plane of `base`:  distance(apex, base.plane)  (either order)  or
+    abs(Vector(P, apex) . N)  with P a point of the base plane and N its (unit) normal -- the absolute value is part of
+    the form: the apex may lie on either side"""
+    if atom in ("distance(%s, %s.plane)" % (apex, base), "distance(%s.plane, %s)" % (base, apex)):
+        return True
+    try:
+        e = ast.parse(atom, mode="eval").body
+    except SyntaxError:
+        return False
+    if not (isinstance(e, ast.Call) and isinstance(e.func, ast.Name) and e.func.id == "abs" and len(e.args) == 1):
+        return False
+    prod = e.args[0]
+    if not (isinstance(prod, ast.BinOp) and isinstance(prod.op, ast.Mult)):
+        return False
+    sides = [prod.left, prod.right]
+    vec = [x for x in sides if isinstance(x, ast.Call) and txt(x.func) == "Vector" and len(x.args) == 2]
+    nrm = [x for x in sides if txt(x) in ("%s.plane.n" % base, "%s.plane.n.normalized()" % base, "%s.plane.n.unit()" % base)]
+    if len(vec) != 1 or len(nrm) != 1:
+        return False
+    pts = [txt(a) for a in vec[0].args]
+    on_base = [p for p in pts if p in ("%s.plane.p" % base, "%s.center_point" % base) or p.startswith("%s.points[" % base)]
+    return len(on_base) == 1 and pts.count(apex) == 1
+
+
+def _cone_formula(fi: FunctionInfo, e: ast.AST, base: str, apex: str) -> Tuple[bool, str]:
+    """e (locals expanded, module helpers inlined) is  1/3 * distance(apex, base.plane) * base.area()"""
+    from ..astutil import expand_locals, inline_module_calls
+    x = inline_module_calls(fi, expand_locals(fi.node, e, fi.params))
+    x = expand_locals(fi.node, x, fi.params)
+    try:
+        c, atoms = _monomial(fi, x, {})
+    except AnalysisError as err:
+        return False, str(err)
+    height_ok = [a for a in atoms if _is_height(a, base, apex)]
+    area_ok = [a for a in atoms if a == "%s.area()" % base]
+    ok = c == F(1, 3) and len(atoms) == 2 and len(height_ok) == 1 and len(area_ok) == 1
+    return ok, "normal form %s * %s" % (c, " * ".join(atoms))
+
+
+def _volume_accumulation(fi: FunctionInfo) -> Tuple[bool, str]:
+    """volume of a polyhedron: the sum of volume() over pyramid_set, or -- the same pyramids written out, pyramid_set holding
+    exactly one Pyramid(face, center_point) per face (R6.3) -- the sum over all faces of 1/3 * distance(center, face) * area"""
+    a = _acc_loop(fi, "pyramid_set", "volume")
+    if a[0]:
+        return a
+    sn = fi.self_name or fi.params[0]
+    b = _acc_loop(fi, "convex_polygons", "volume", elem_ok=lambda v, var: _cone_formula(fi, v, var, "%s.center_point" % sn)[0])
+    if b[0]:
+        return True, "sum over all faces of 1/3 * distance(%s.center_point, face.plane) * face.area() (the pyramids of pyramid_set written out)" % sn
+    if "no loop over" in a[1] and "no loop over" not in b[1]:
+        return b
+    return a
 
 
 def r63(ctx, res):
@@ -469,7 +548,7 @@ def r63(ctx, res):
                                    ("volume", "calc.volume", "pyramid_set", "volume")):
         fi = repo.fn(short, mod)
         n += 1
-        ok, why = _acc_loop(fi, coll, call)
+        ok, why = _acc_loop(fi, coll, call) if call != "volume" else _volume_accumulation(fi)
         res.ob("R6.3", fi.where(), "%s sums %s over %s" % (short, call, coll), ok, why)
         if not ok:
             res.violation("R6.3", fi, fi.node, "%s does not accumulate %s() over the whole of %s: %s" % (short, call, coll, why),
@@ -569,9 +648,10 @@ def _monomial(fi: FunctionInfo, e: ast.AST, env_defs) -> Tuple[F, List[str]]:
         if a2 or c2 == 0:
             raise AnalysisError("%s: division by a non-constant in `%s`" % (fi.where(e), txt(e)))
         return c1 / c2, a1
-    if isinstance(e, (ast.BinOp, ast.UnaryOp)) and not isinstance(getattr(e, "op", None), (ast.Mult, ast.Div)):
-        raise AnalysisError("%s: `%s` is not a monomial" % (fi.where(e), txt(e)))
-    return F(1), [txt(e)]
+    if isinstance(e, ast.UnaryOp) and isinstance(e.op, ast.USub):
+        c1, a1 = _monomial(fi, e.operand, env_defs)
+        return -c1, a1
+    return F(1), [txt(e)]  # anything else (a sum in parentheses, a call) is an opaque factor
 
 
 def r64(ctx, res):
@@ -589,13 +669,13 @@ def r64(ctx, res):
         monos = []
         for r in rets:
             try:
-                from ..astutil import expand_locals
-                c, atoms = _monomial(fi, expand_locals(fi.node, r.value, fi.params), defs)
+                from ..astutil import expand_locals, inline_module_calls
+                c, atoms = _monomial(fi, inline_module_calls(fi, expand_locals(fi.node, r.value, fi.params)), defs)
             except AnalysisError:
                 continue
             if atoms:
                 monos.append((r, c, atoms))
-            if len(atoms) >= 1 and any("area()" in a for a in atoms):
+            if len(atoms) >= 1 and any(a.endswith(".area()") and not a.startswith("sum(") for a in atoms):
                 cand = (r, c, atoms)
         if cand is None:
             # no return mentions the base area: take the pyramid branch's monomial (if any) and report it
@@ -604,9 +684,7 @@ def r64(ctx, res):
                 raise AnalysisError("%s: no return of the form coefficient * height * base area" % fi.where())
             cand = monos[0]
         r, c, atoms = cand
-        height_ok = [a for a in atoms if a in ("%s.height()" % pyr,
-                                               "distance(%s.point, %s.convex_polygon.plane)" % (pyr, pyr),
-                                               "distance(%s.convex_polygon.plane, %s.point)" % (pyr, pyr))]
+        height_ok = [a for a in atoms if a == "%s.height()" % pyr or _is_height(a, "%s.convex_polygon" % pyr, "%s.point" % pyr)]
         area_ok = [a for a in atoms if a == "%s.convex_polygon.area()" % pyr]
         ok = c == F(1, 3) and len(atoms) == 2 and len(height_ok) == 1 and len(area_ok) == 1
         forms[short] = (c, atoms)
@@ -615,11 +693,11 @@ def r64(ctx, res):
             res.violation("R6.4", fi, r, "%s is not one third of height times base area: normal form %s * %s" % (
                 short, c, " * ".join(atoms)), construct="%s pyramid formula" % short)
     # volume(x) on a polyhedron sums the same pyramids as x.volume()
-    a = _acc_loop(repo.fn("ConvexPolyhedron.volume"), "pyramid_set", "volume")
-    b = _acc_loop(repo.fn("volume", "calc.volume"), "pyramid_set", "volume")
+    a = _volume_accumulation(repo.fn("ConvexPolyhedron.volume"))
+    b = _volume_accumulation(repo.fn("volume", "calc.volume"))
     ok = a[0] and b[0]
     res.ob("R6.4", repo.fn("volume", "calc.volume").where(), "volume(x) and x.volume() sum the same pyramids", ok,
-           "both accumulate over pyramid_set" if ok else "%s / %s" % (a[1], b[1]))
+           "both accumulate over the pyramids of the faces (%s / %s)" % (a[1][:60], b[1][:60]) if ok else "%s / %s" % (a[1], b[1]))
     if not ok and not any(f.rule == "R6.3" for f in res.findings):
         res.violation("R6.4", repo.fn("volume", "calc.volume"), repo.fn("volume", "calc.volume").node,
                       "volume(x) and x.volume() do not sum over the same pyramids", construct="volume sibling agreement")
